@@ -179,6 +179,35 @@ def run(ctx: Ctx, tier: str) -> Result:
                          "orders them: two in-flight updates can be applied in either order, leaving an older configuration installed while "
                          "the newer hash is reported"))
 
+    # a requested update is never dropped: publication is unconditional, or skipped only behind a `dirty` flag that is
+    # cleared *before* the state is read (a request arriving while the listeners run must find the flag set again)
+    early = [n for n in t.nodes_in(ul, (ast.Return, ast.Raise)) if n.lineno < cc[0].lineno]
+    early_tests = {id(c) for n in early for c, _ in paths.conditions(p, n, ul)}
+    extra_c = [c for c, pol in paths.conditions(p, cc[0], ul) if id(c) not in early_tests]
+    for n in early:
+        cs = paths.conditions(p, n, ul)
+        flag = None
+        if len(cs) == 1:
+            c0, pol0 = cs[0]
+            if isinstance(c0, ast.UnaryOp) and isinstance(c0.op, ast.Not) and pol0 and norm(c0.operand).startswith("self."):
+                flag = norm(c0.operand)
+            elif not pol0 and norm(c0).startswith("self.") and isinstance(c0, ast.Attribute):
+                flag = norm(c0)
+        reads = [x for x in t.nodes_in(ul, ast.Attribute) if norm(x) in ("self._tracepoint_config", "self._custom", "self._current_hash") and x.lineno > n.lineno]
+        clears = [a for a in t.nodes_in(ul, ast.Assign) if flag and norm(a.targets[0]) == flag and isinstance(a.value, ast.Constant) and a.value.value is False] if flag else []
+        okf = bool(flag) and bool(reads) and any(a.lineno > n.lineno and a.lineno < min(r.lineno for r in reads) and paths.dominates(p, a, cc[0], ul) for a in clears) \
+            and not any(a.lineno >= min(r.lineno for r in reads) for a in clears)
+        if okf:
+            res.ok("C12.ORDER", {"publication skipped only behind a flag cleared before the state is read": flag})
+        else:
+            res.fail(Finding("C12.ORDER", ul.qname, n, ul.loc(n), "a submitted listener update can return without publishing (`%s`)%s: a change made while another update is "
+                             "publishing is lost - the handler keeps the older set while the newer hash is reported" % (
+                                 " and ".join(norm(c)[:40] for c, _ in cs) or "unconditional", ", and the flag is cleared after the state was read" if flag else "")))
+    for c in extra_c:
+        res.fail(Finding("C12.ORDER", ul.qname, c, ul.loc(c), "the listeners are only called when `%s`" % norm(c)[:60]))
+    if not early and not extra_c:
+        res.ok("C12.ORDER", {"every submitted update publishes": True})
+
     # ---------------- APPLY
     last = ctx.expand.expand(cc[0].args[-1], ul)
     if last and all(x.endswith(" + @self._custom") and ("_tracepoint_config" in x or ("@" + ul.params[5]) in x) for x in last):
@@ -195,8 +224,15 @@ def run(ctx: Ctx, tier: str) -> Result:
     nc_ = [c for c in t.calls_in(lst) if any(x.name == "new_config" for x in t.resolve_call(c, lst).repo)]
     hn = p.func("deep.processor.trigger_handler.TriggerHandler.new_config")
     hw = [n for n in t.nodes_in(hn, ast.Assign)]
+    skip = [n for n in t.nodes_in(lst, (ast.Return, ast.Raise)) if nc_ and n.lineno < nc_[0].lineno] + \
+        [c for c, _ in (paths.conditions(p, nc_[0], lst) if nc_ else [])] + list(paths.enclosing_loops(p, nc_[0], lst) if nc_ else [])
+    if skip:
+        res.fail(Finding("C12.APPLY", lst.qname, skip[0], lst.loc(skip[0]), "the listener passes an update on to the trigger handler only on some paths (`%s`): the update that "
+                         "is skipped (e.g. the last registration being removed while the service has no tracepoints) leaves an older set installed" % norm(skip[0])[:60]))
     if len(nc_) == 1 and ctx.expand.expand(nc_[0].args[0], lst) == [P(lst, 5)] and len(hw) == 1 and norm(hw[0].value) == hn.params[1] and not paths.conditions(p, hw[0], hn):
         res.ok("C12.APPLY", {"handler installs exactly the list it is given": norm(hw[0])})
     else:
         res.fail(Finding("C12.APPLY", hn.qname, hw[0] if hw else "<self._tp_config = new_config>", hn.loc(), "the trigger handler does not install exactly the configuration the listener passes on"))
+    from .common import borrow
+    borrow(ctx, res, tier, "c03", ("C03.MERGE",), "C12.MERGE", "tracepoints of a response are grouped by a key that tells different locations apart")
     return res
